@@ -190,7 +190,7 @@ var c03Stmts = []string{
 var sigmaS = []string{
 	"#", ";", "\n", "\\", "{", "}", "[", "]", "'", "\"", "|", ":", ".", "-", "<", ">", "*", "&", "(", ")", "@", "$", "!", "`", "=", ",", "%", "/",
 	" ", "\t", "\r", "a", "N", "1", ".5", "é", "世", "😀", "K", "ſ", "İ", "_", " ", " ",
-	"null", "NULL", "Null", "true", "TRUE", "false", "suspend", "Unsuspend", "unsuspend", "label", "Shape", "style", "layers", "**", "...", "${", "->", "--",
+	"null", "NULL", "Null", "true", "TRUE", "false", "False", "suspend", "Suspend", "Unsuspend", "unsuspend", "label", "Shape", "style", "layers", "**", "...", "${", "->", "--",
 }
 
 func c05Key(s string) eng.Res {
@@ -267,12 +267,12 @@ func c05Set(s string) eng.Res {
 // keyKind says which family the string belongs to (mechanism, not the input itself).
 func keyKind(s string) string {
 	l := strings.ToLower(s)
-	switch l {
-	case "null", "true", "false", "suspend", "unsuspend":
+	fam := map[string]string{"null": "null", "true": "bool", "false": "bool", "suspend": "suspension", "unsuspend": "suspension"}[l]
+	if fam != "" {
 		if l == s {
-			return "keyword-" + l
+			return "keyword-" + fam
 		}
-		return "keyword-" + l + "-othercase"
+		return "keyword-" + fam + "-othercase"
 	}
 	if _, ok := d2ast.ReservedKeywords[l]; ok {
 		if l == s {
